@@ -2,6 +2,7 @@ package scen
 
 import (
 	"fmt"
+	aptypes "github.com/elys-network/elys/x/assetprofile/types"
 	"reflect"
 
 	"cosmossdk.io/math"
@@ -206,6 +207,7 @@ var envFaults = []string{
 	"gap_1h", "gap_25h", "gap_8d", "gap_40d", "gap_400d", "gap_400d_then_outage", "empty_burst_60", "gaps_repeated_week",
 	"pool_drain_same_block", "pools_nearly_emptied", "dust_everything", "failing_txs_with_fees",
 	"provider_vesting_slots_full", "vesting_slots_zero_then_epochs",
+	"hostile_registry_entries_small", "hostile_registry_entries_large",
 }
 
 func init() {
@@ -216,6 +218,7 @@ func init() {
 		c.Attach(w)
 		v.Prologue(w)
 		w.GovExec("eden on", &mctypes.MsgTogglePoolEdenRewards{Authority: w.Gov, PoolId: 1, Enable: true}, &mctypes.MsgTogglePoolEdenRewards{Authority: w.Gov, PoolId: 2, Enable: true})
+		burnerOn(c, w)
 		g := v.Gen(w, c, MixWide)
 		g.FeeProb = 0.5
 		g.MaxTx = 8
@@ -373,9 +376,42 @@ func applyFault(c *run.Ctx, w *chain.World, g freeGen, name string, edges map[st
 	case name == "vesting_slots_zero_then_epochs":
 		w.GovExec(name, &commitmenttypes.MsgUpdateVestingInfo{Authority: w.Gov, BaseDenom: "ueden", VestingDenom: "uelys", NumBlocks: 1000, VestNowFactor: 90, NumMaxVestings: 0})
 		p := w.App.EstakingKeeper.GetParams(w.ReadCtx())
-		p.ProviderVestingEpochIdentifier = "fiveminutes"
+		p.ProviderVestingEpochIdentifier = "five_minutes"
 		w.GovExec(name+"/epoch", &estakingtypes.MsgUpdateParams{Authority: w.Gov, Params: p})
 		g.Free(8, func(i int) int64 { return 301 })
+	case name == "hostile_registry_entries_small", name == "hostile_registry_entries_large":
+		// assetprofile.MsgAddEntry and oracle.MsgCreateAssetInfo are accepted from anybody on this tree:
+		// users register price infos for share / reward denoms and asset-profile entries that shadow
+		// real ones (an entry whose base denom sorts first and whose denom is an existing one is what
+		// GetEntryByDenom returns from then on), with ordinary and absurd decimals
+		decs := []uint64{0, 6, 18, 30}
+		if name == "hostile_registry_entries_large" {
+			decs = []uint64{6, 6, 7} // 18-decimal share tokens priced as if they had 6
+		}
+		u := w.Users
+		txs := []*chain.TxRecord{}
+		for i, dn := range []string{"amm/pool/1", "amm/pool/2", "stablestake/share", "ueden", "uedenb", "zzz"} {
+			a := u[3+i%8]
+			txs = append(txs, w.Tx(a, &oracletypes.MsgCreateAssetInfo{Creator: a.S(), Denom: dn, Display: []string{"ATOM", "USDC", "NOPE"}[i%3], BandTicker: []string{"ATOM", "USDC", "NOPE"}[i%3], ElysTicker: []string{"ATOM", "USDC", "NOPE"}[i%3], Decimal: decs[i%len(decs)]}))
+		}
+		w.Step(5, txs...)
+		txs = nil
+		for i, dn := range []string{"uusdc", "uatom", "uelys", "amm/pool/1", "stablestake/share", "newcoin"} {
+			a := u[3+i%8]
+			txs = append(txs, w.Tx(a, &aptypes.MsgAddEntry{Creator: a.S(), BaseDenom: fmt.Sprintf("aa%d%s", i, name[len(name)-5:]), Denom: dn, Decimals: []uint64{6, 12, 18}[i%3], DisplayName: "X", CommitEnabled: i%2 == 0, WithdrawEnabled: true}))
+		}
+		b := w.Step(5, txs...)
+		if !w.Dead {
+			for _, t := range b.Txs[1:] {
+				if t.OK() {
+					c.Ev("hostile_registry_entry_accepted")
+				} else {
+					c.Ev("hostile_registry_entry_rejected")
+				}
+			}
+		}
+		g.Free(25, g.StdDt)
+		g.Free(3, func(i int) int64 { return []int64{90000, 5, 5}[i] })
 	case name == "failing_txs_with_fees":
 		// transactions that fail in the message while paying fees in every denom
 		for i := 0; i < 6 && !w.Dead; i++ {
